@@ -76,6 +76,35 @@ def semVerdict (sp : Spec) (orc : String → Bool) : St :=
 /-- the observable outcome of an engine world: workflow state and the rows as triples -/
 def rowTriple (r : TaskRow) : SRow := (r.name, r.state, r.nextTasks)
 
+/-! ### the single-activation class (multiset reading of the outcome) -/
+
+/-- routers of `n` in the semantics -/
+def routersOf (sp : Spec) (orc : String → Bool) (n : String) : List TaskG :=
+  (inbound sp.graph n).filter fun p => routesB sp (sem sp orc p.name) p.name n
+
+def nodupB (l : List String) : Bool := l.all fun x => (l.filter (· == x)).length == 1
+
+/-- the single-activation class: (A) a task never routes twice to the same target, (B) a task that
+    is not a join has at most one router, (C) a join has at most as many routers as it needs;
+    `strict`: (C'') moreover a join has at most one router or ALL its inbound tasks are routers - so
+    that it can not fail structurally ("not triggered" / "impossible route") while another router is
+    still to come (a join that failed early is re-opened by the late branch: known finding) -/
+def singleActGen (strict : Bool) (sp : Spec) (orc : String → Bool) : Bool :=
+  sp.graph.tasks.all fun t =>
+    let n := t.name
+    (match sem sp orc n with
+     | some s => nodupB ((nextOf sp n s).map (·.1))
+     | none => true) &&
+    (match isJoin sp n with
+     | none => (routersOf sp orc n).length ≤ 1
+     | some k =>
+       let r := (routersOf sp orc n).length
+       let i := (inbound sp.graph n).length
+       r ≤ need k i && (!strict || r ≤ 1 || (r == i && need k i == i)))
+
+def singleActB (sp : Spec) (orc : String → Bool) : Bool := singleActGen true sp orc
+def singleActWideB (sp : Spec) (orc : String → Bool) : Bool := singleActGen false sp orc
+
 /-! ### the histories the refinement theorem quantifies over -/
 
 /-- a plain event: not a `stop`, not the loss of an action at its executor (C20), and an executor
